@@ -426,11 +426,46 @@ func checkC06(p *Prog, r *Report) {
 		guard := false
 		if slot != nil {
 			old := p.paramObj(f, 0)
+			// the superseded candidate by role: an operand of this function (a parameter, or a field of a parameter
+			// struct) that is not the candidate handed to replacePairRemote as the new remote
+			newRemote := ""
+			for _, rc := range p.CallsTo(f, false, "ice.replacePairRemote") {
+				if len(rc.Args) == 2 {
+					newRemote = p.Canon(rc.Args[1])
+				}
+			}
+			isOld := func(e ast.Expr) bool {
+				if e == nil {
+					return false
+				}
+				if p.isObj(e, old) {
+					return true
+				}
+				root := unparen(e)
+				if sel, ok := root.(*ast.SelectorExpr); ok {
+					root = unparen(sel.X)
+				} else {
+					return false
+				}
+				id, ok := root.(*ast.Ident)
+				if !ok || newRemote == "" || p.Canon(e) == newRemote || typeStr(p.TypeOf(e)) != "ice.Candidate" {
+					return false
+				}
+				for i := 0; ; i++ {
+					o := p.paramObj(f, i)
+					if o == nil {
+						return false
+					}
+					if p.ObjOf(id) == o {
+						return true
+					}
+				}
+			}
 			guard = factListHas(p.DominatingFactList(f, slot), func(ft Fact) bool {
 				if ft.Op != "==" || !ft.Val {
 					return false
 				}
-				return (p.IsField(ft.X, "CandidatePair.Remote") && p.isObj(ft.Y, old)) || (ft.Y != nil && p.IsField(ft.Y, "CandidatePair.Remote") && p.isObj(ft.X, old))
+				return (p.IsField(ft.X, "CandidatePair.Remote") && isOld(ft.Y)) || (ft.Y != nil && p.IsField(ft.Y, "CandidatePair.Remote") && isOld(ft.X))
 			})
 		}
 		r.Check(len(missing) == 0 && guard, "replaceRemoteInPairs keeps slot, id, priority and holders", p.Pos(f.Body.Pos()), "same slot, same index entry, old priority, holders retargeted", "missing: "+strings.Join(missing, ", ")+" guard on pair.Remote == old: "+boolStr(guard))
